@@ -374,6 +374,7 @@ func propHostObjects(c *Ctx) {
 		name string
 		v    any
 	}{{"*int", &i}, {"*string", &s}, {"*bool", &b}, {"*float64", &f}, {"*time.Time", &tm}, {"(*int)(nil)", nilInt}, {"*struct", r}, {"struct", rec{4}},
+		{"time.Now()", time.Now()}, {"time.Now().Add", time.Now().Add(3 * time.Second)}, {"time in a zone", time.Unix(7, 9).In(time.FixedZone("Z", 3600))},
 		{"map", map[string]int{"a": 1}}, {"chan", make(chan int)}, {"[]int", []int{1, 2}}, {"uint8", uint8(9)}, {"complex", complex(1, 2)}}
 	for _, h := range hosts {
 		for _, how := range []string{"NewVariant", "VariantFromObject", "SetAsObject"} {
@@ -391,6 +392,13 @@ func propHostObjects(c *Ctx) {
 				default:
 					v = variants.EmptyVariant()
 					v.SetAsObject(h.v)
+				}
+				if tv, isTime := h.v.(time.Time); isTime {
+					// a date-time is handed back UNCHANGED: the same instant, zone and clock readings (== on time.Time)
+					if v.Type() != variants.DateTime || v.AsDateTime() != tv {
+						note = fmt.Sprintf("%s(%s) reports type %d and hands back %v, it was given %v", how, h.name, v.Type(), v.AsDateTime(), tv)
+					}
+					return ""
 				}
 				if v.Type() != variants.Object {
 					note = fmt.Sprintf("%s(%s value) reports type %d, not Object", how, h.name, v.Type())
